@@ -165,6 +165,12 @@ Fixpoint pp (slot : nat) (e : expr) {struct e} : list pt :=
                                             PK "for" :: pp slot_comp_target t ++ PK "in" :: pp slot_comp_iter i ++
                                             flat_map (fun c => PK "if" :: pp slot_comp_if c) ifs
                                         end) gs) ++ [PK "}"]
+    | GeneratorExp x gs => pp slot_GeneratorExp_elt x ++ (flat_map (fun g => match g with
+                                        | (t, i, ifs, a) =>
+                                            (if a : bool then [PK "async"] else []) ++
+                                            PK "for" :: pp slot_comp_target t ++ PK "in" :: pp slot_comp_iter i ++
+                                            flat_map (fun c => PK "if" :: pp slot_comp_if c) ifs
+                                        end) gs)
     | Subscript v s => pp slot_Subscript_value v ++ PK "[" :: pp slot_Subscript_slice s ++ [PK "]"]
     | Slice a b c =>
         (match a with Some x => pp slot_Slice_lower x | None => [] end) ++ PK ":" ::
@@ -238,6 +244,7 @@ Definition pbody (e : expr) : list pt :=
   | DictComp k v gs => PK "{" :: pp slot_DictComp_key k ++ PK ":" :: pp slot_DictComp_value v ++ gtoks gs ++ [PK "}"]
   | ListComp x gs => PK "[" :: pp slot_ListComp_elt x ++ gtoks gs ++ [PK "]"]
   | SetComp x gs => PK "{" :: pp slot_SetComp_elt x ++ gtoks gs ++ [PK "}"]
+  | GeneratorExp x gs => pp slot_GeneratorExp_elt x ++ gtoks gs
   | Subscript v s => pp slot_Subscript_value v ++ PK "[" :: pp slot_Subscript_slice s ++ [PK "]"]
   | Slice a b c =>
       (match a with Some x => pp slot_Slice_lower x | None => [] end) ++ PK ":" ::
@@ -273,7 +280,19 @@ Fixpoint core (e : expr) {struct e} : bool :=
       forallb (fun o => match o with Some x => core x && negb (is_starred x) | None => true end) kd
   | NamedExpr _ v => ec v
   | Attribute v _ => ec v
-  | Call f args kws => ec f && forallb core args && forallb (fun kw => core (snd kw) && negb (is_starred (snd kw))) kws
+  | Call f args kws =>
+      ec f &&
+      match args, kws with
+      | [GeneratorExp x gs], [] =>
+          (* a generator expression as the only argument is printed without parentheses of its own: f(x for x in y) *)
+          ec x && Nat.leb 1 (length gs) &&
+          forallb (fun g => match g with
+                            | (t, i, ifs, a) =>
+                                core t && is_target t && core i && negb (is_starred i) &&
+                                forallb (fun c => core c && negb (is_starred c)) ifs && negb a
+                            end) gs
+      | _, _ => forallb core args && forallb (fun kw => core (snd kw) && negb (is_starred (snd kw))) kws
+      end
   | Subscript v s =>
       ec v && match s with
               | Slice a b c =>
@@ -306,6 +325,19 @@ Fixpoint core (e : expr) {struct e} : bool :=
   | _ => false
   end.
 Definition ecore (e : expr) : bool := core e && negb (is_starred e).
+(* a clause list of the core *)
+Definition gens_core (gs : list comprehension) : bool :=
+  forallb (fun g => match g with
+                    | (t, i, ifs, a) =>
+                        core t && is_target t && core i && negb (is_starred i) &&
+                        forallb (fun c => core c && negb (is_starred c)) ifs && negb a
+                    end) gs.
+(* a generator expression over the core: as an operand it is not in [core] (the theorem covers it in the two positions where
+   it is commonly written: the only argument of a call, and a whole parenthesised expression) *)
+Definition gen_core (e : expr) : bool :=
+  match e with GeneratorExp x gs => ecore x && Nat.leb 1 (length gs) && gens_core gs | _ => false end.
+(* the expressions the round trip is proved for *)
+Definition core_top (e : expr) : bool := (core e && negb (is_starred e)) || gen_core e.
 
 (* ---------- the parser ---------- *)
 Inductive chain := CNone | CBool (o : boolop) | CCmp.
@@ -658,6 +690,19 @@ Fixpoint pc (f : nat) (m : mode) (ts : list pt) {struct f} : option (expr * list
                 else if String.eqb s ")" then Some (args_carrier acc' kws', r) else None
             | _ => None
             end in
+          (* a positional argument; `f(x for x in y)`: a generator expression may stand bare as the ONLY argument *)
+          let after_pos := fun (a : expr) (rest : list pt) =>
+            if hd_is "for" rest then
+              match acc, kws with
+              | [], [] =>
+                  match pc f' (MGens []) rest with
+                  | Some (GeneratorExp _ gens, PK s2 :: r2) =>
+                      if String.eqb s2 ")" then Some (args_carrier [GeneratorExp a gens] [], r2) else None
+                  | _ => None
+                  end
+              | _, _ => None
+              end
+            else after (a :: acc) kws rest in
           if hd_is "**" ts then
             match pc f' (MExpr slot_Call_kwarg) (tl ts) with
             | Some (v, rest) => after acc ((None, v) :: kws) rest
@@ -678,12 +723,12 @@ Fixpoint pc (f : nat) (m : mode) (ts : list pt) {struct f} : option (expr * list
                   end
                 else
                   match pc f' (MExpr TOP) ts with
-                  | Some (a, rest) => after (a :: acc) kws rest
+                  | Some (a, rest) => after_pos a rest
                   | None => None
                   end
             | _ =>
                 match pc f' (MExpr TOP) ts with
-                | Some (a, rest) => after (a :: acc) kws rest
+                | Some (a, rest) => after_pos a rest
                 | None => None
                 end
             end
@@ -733,7 +778,7 @@ Definition expr_same (a b : expr) : bool :=
 
 (* (in the core?, unparser tokens = printer tokens?, parser reads the tree back?) *)
 Definition core_check (e : expr) : bool * bool * bool :=
-  (core e, pts_eqb (norm (utoks slot_top DQ e)) (pp slot_top e),
+  (core_top e, pts_eqb (norm (utoks slot_top DQ e)) (pp slot_top e),
    match parse_core (pp slot_top e) with Some e' => expr_same e e' | None => false end).
 
 Definition sx_pt (t : pt) : Sexp.sexp :=
